@@ -231,8 +231,8 @@ theorem reverse_treeSame (s : Seg) (mark : Nat → Bool) : TreeSame s (s.reverse
   rw [this]
   exact ⟨rfl, rfl, rfl, rfl⟩
 
-theorem runPassDir_forest (p : PassT) (c : Ctx) (fuel : Nat) (h : WF c.seg) (hF : Forest c.seg) {c' : Ctx}
-    (e : runPassDir p c fuel = .ok (some c')) : Forest c'.seg := by
+theorem runPassDir_forest (p : PassT) (c : Ctx) (fuel : Nat) (ar : Bool) (h : WF c.seg) (hF : Forest c.seg) {c' : Ctx}
+    (e : runPassDir p c fuel ar = .ok (some c')) : Forest c'.seg := by
   unfold runPassDir at e
   split at e
   · cases e; exact hF
@@ -247,48 +247,15 @@ theorem runPassDir_forest (p : PassT) (c : Ctx) (fuel : Nat) (h : WF c.seg) (hF 
           · exact runPass_forest p (c.withSeg (c.seg.reverseSlots (isMark c c.seg))) fuel (reverse_wf h _) (forest_congr (reverse_treeSame _ _) hF) e
           · exact runPass_forest p c fuel h hF e
 
-theorem runRange_forest (passes : Array PassT) (c : Ctx) (lo hi fuel : Nat) (h : WF c.seg) (hF : Forest c.seg) {c' : Ctx}
-    (e : runRange passes c lo hi fuel = .ok (some c')) : Forest c'.seg := by
-  unfold runRange at e
-  simp only [] at e
-  revert e
-  have h0 : WF (c.beginRange (c.seg.numGlyphs * 64)).seg ∧ Forest (c.beginRange (c.seg.numGlyphs * 64)).seg := ⟨h, hF⟩
-  revert h0
-  generalize (c.beginRange (c.seg.numGlyphs * 64)) = c0
-  generalize (List.range (hi - lo)) = ks
-  intro h0
-  have : ∀ (ks : List Nat) (acc : Except String (Option Ctx)), (∀ x, acc = .ok (some x) → WF x.seg ∧ Forest x.seg) →
-      ∀ x, ks.foldl (fun (acc : Except String (Option Ctx)) k =>
-        match acc with
-        | .ok (some c1) =>
-          (match runPassDir (passes.getD (lo + k) default) c1 fuel with
-           | .ok (some c2) => if c2.seg.numGlyphs > 0 ∧ c2.seg.numGlyphs > c.seg.numGlyphs * 64 then .ok none else .ok (some c2)
-           | o => o)
-        | o => o) acc = .ok (some x) → WF x.seg ∧ Forest x.seg := by
-    intro ks
-    induction ks with
-    | nil => intro acc ha x hx; exact ha x hx
-    | cons k rest ih =>
-      intro acc ha x hx
-      simp only [List.foldl_cons] at hx
-      refine ih _ ?_ x hx
-      intro y hy
-      split at hy
-      · rename_i c1
-        split at hy
-        · rename_i c2 hp
-          split at hy
-          · cases hy
-          · cases hy
-            exact ⟨runPassDir_spec _ c1 fuel (ha c1 rfl).1 hp, runPassDir_forest _ c1 fuel (ha c1 rfl).1 (ha c1 rfl).2 hp⟩
-        · rename_i o hno
-          exact absurd hy (by
-            intro hh
-            exact hno y (by rw [hh]))
-      · rename_i o hno
-        exact absurd hy (fun hh => hno y hh)
-  intro e
-  exact (this ks (.ok (some c0)) (fun x hx => by cases hx; exact h0) c' e).2
+theorem runPhase_forest (passes : Array PassT) (bPass : Nat) (c : Ctx) (lo hi : Nat) (dobidi : Bool) (fuel : Nat) (h : WF c.seg) (hF : Forest c.seg) {c' : Ctx}
+    (e : runPhase passes bPass c lo hi dobidi fuel = .ok (some c')) : Forest c'.seg := by
+  refine (runPhase_ind (fun x => WF x.seg ∧ Forest x.seg) passes bPass lo hi dobidi fuel
+    (fun ar k _ _ c1 c2 h1 e1 => ⟨runPassDir_spec _ c1 fuel ar h1.1 e1, runPassDir_forest _ c1 fuel ar h1.1 h1.2 e1⟩) (fun x l hx => hx) (fun x hx => ?_) c ⟨h, hF⟩ e).2
+  refine ⟨bidiStep_wf hx.1, ?_⟩
+  unfold bidiStep
+  split
+  · exact forest_congr (reverse_treeSame _ _) hx.2
+  · exact hx.2
 
 /-! ## `read_text` and `associateChars` -/
 
@@ -406,8 +373,8 @@ theorem shape_forest (font : Font) (text : List Nat) (fuel : Nat) (dir : Nat) {c
     · cases e
     · cases e
     · rename_i c1 h1
-      have w1 := runRange_spec _ _ _ _ _ (initSeg_wf font text dir) h1
-      have f1 := runRange_forest _ _ _ _ _ (initSeg_wf font text dir) (initSeg_forest font text dir) h1
+      have w1 := runPhase_spec _ _ _ _ _ _ _ (initSeg_wf font text dir) h1
+      have f1 := runPhase_forest _ _ _ _ _ _ _ (initSeg_wf font text dir) (initSeg_forest font text dir) h1
       split at e
       · cases e
       · rename_i seg' ci' hre
@@ -419,6 +386,6 @@ theorem shape_forest (font : Font) (text : List Nat) (fuel : Nat) (dir : Nat) {c
         · rename_i c2 h2
           simp only [Except.ok.injEq, Option.some.injEq, Prod.mk.injEq] at e
           rw [← e.1]
-          exact runRange_forest _ _ _ _ _ w2 f2 h2
+          exact runPhase_forest _ _ _ _ _ _ _ w2 f2 h2
 
 end GrVerif.Pass
